@@ -1,0 +1,34 @@
+//go:build verif
+
+package lagrange
+
+// Contracts for the deductive checker in /verif (comment-only; compiled only under the verif tag).
+//
+// lnum(xs, at, i, k) = prod_{j<k, j != i} (at - xs[j]),   lden(xs, i, k) = prod_{j<k, j != i} (xs[i] - xs[j]),
+// multiplied in the order the code multiplies them. BasisAt returns coefficients l_i with
+// l_i * lden(xs, i, n) == lnum(xs, at, i, n) and reports an error exactly when some denominator is zero
+// (over a field: exactly when a node is repeated).
+
+//@ ghost func lnum(xs []V, at V, i Int, k Int) V
+//@ ghost func lden(xs []V, i Int, k Int) V
+//@ theory lagrange
+//@ axiom Lnum0: forall xs []V, at V, i Int :: lnum(xs, at, i, 0) == rone()
+//@ axiom LnumS: forall xs []V, at V, i Int, k Int :: k > 0 ==> lnum(xs, at, i, k) == ite(k - 1 == i, lnum(xs, at, i, k - 1), rmul(lnum(xs, at, i, k - 1), rsub(at, xs[k - 1])))
+//@ axiom Lden0: forall xs []V, i Int :: lden(xs, i, 0) == rone()
+//@ axiom LdenS: forall xs []V, i Int, k Int :: k > 0 ==> lden(xs, i, k) == ite(k - 1 == i, lden(xs, i, k - 1), rmul(lden(xs, i, k - 1), rsub(xs[i], xs[k - 1])))
+//@ end
+
+//@ func BasisAt
+//@   property C20
+//@   bind FE ring, FiniteField ringS
+//@   uses lagrange
+//@   nopanic
+//@   requires forall t int :: 0 <= t && t < len(xs) ==> !utils.IsNil(xs[t])
+//@   ensures err == nil && len(xs) > 0 ==> result != nil && len(result.Coefficients()) == len(xs)
+//@   ensures err == nil && len(xs) > 0 ==> forall t int :: 0 <= t && t < len(xs) ==> lden(xs, t, len(xs)) != rzero() && rmul(result.Coefficients()[t], lden(xs, t, len(xs))) == lnum(xs, at, t, len(xs))
+//@   ensures (exists t int :: 0 <= t && t < len(xs) && lden(xs, t, len(xs)) == rzero()) ==> err != nil
+//@   loop range(xs)
+//@     invariant len(terms) == len(xs)
+//@     invariant forall t int :: 0 <= t && t < i ==> lden(xs, t, len(xs)) != rzero() && rmul(terms[t], lden(xs, t, len(xs))) == lnum(xs, at, t, len(xs))
+//@   loop range(xs)#2
+//@     invariant num == lnum(xs, at, i, j) && den == lden(xs, i, j)
